@@ -130,7 +130,7 @@ func doWithRetry(ctx context.Context, log *zap.Logger, f func(context.Context) e
 					zap.Int("attempt", attempts),
 					zap.Duration("elapsed", time.Since(start)),
 					zap.Duration("max_duration", maxRetryDuration))
-				return nil
+				return err
 			}
 		}
 	}
